@@ -28,6 +28,7 @@ impl St<'_> {
             return false;
         }
         self.execs += 1;
+        crate::runner::heartbeat();
         // the active sweeps are re-run completely, so a shrunk workload may fail at another index
         let out = run_one(self.s, Tape::replay(cand), false, Focus::labels_of(&self.focus), self.thorough);
         match out.violation {
